@@ -272,23 +272,25 @@ def r3_cut_agree(c, facts):
     # flag computed before drain
     drains = P.call_blocks(cyc, 'Vec::drain')
     # the is_empty test guarding `has_changed = true`
-    flag_local = None
-    for i, l in enumerate(cyc.mir['locals']):
-        if l['name'] == 'has_changed':
-            flag_local = i
+    # the "go round again" flag: a named bool local that is set from the emptiness of the collected edges, either
+    # `if !v.is_empty() { flag = true }` or `flag = !v.is_empty()` (whatever the local is called)
     tests = []
-    if flag_local is not None:
+    cidx = MF.defs_index(cyc)
+    flags = [i for i, l in enumerate(cyc.mir['locals']) if l.get('name') and l['ty'] == 'bool']
+    for flag_local in flags:
         for b, t in P.call_blocks(cyc, 'Vec::is_empty'):
-            sw = cyc.mir['blocks'][t['target']]['term']
-            # does some successor region assign has_changed = true?
-            region = cyc.reachable_from(t['target'])
-            for b2 in list(region)[:]:
-                pass
             for tgt in cyc.succ(t['target']):
                 blk = cyc.mir['blocks'][tgt]
                 for s in blk['stmts']:
                     if s['s'] == 'assign' and s['place']['l'] == flag_local and s['rv']['r'] == 'use' and s['rv']['op'].get('val') == '1':
                         tests.append(b)
+        for kind, bi, d in cidx.get(flag_local, []):
+            if kind == 'assign' and d['rv']['r'] in ('unop', 'use', 'binop'):
+                ops = [o for o in (d['rv'].get('op'), d['rv'].get('a'), d['rv'].get('b'), d['rv'].get('e')) if o and 'l' in o]
+                for o in ops:
+                    for n, t2, b2 in MF.slice_back(cyc, o['l'], cidx, through_calls=False)['calls']:
+                        if P.strip(n).endswith('Vec::is_empty'):
+                            tests.append(b2)
     if not drains or not tests:
         c.bad(R, 'fixpoint-structure-not-found', 'cycles_check: cannot find the drain of collected edges or the emptiness test that requests another iteration')
     else:
